@@ -36,8 +36,8 @@ PROPS = {
         "kani": [K_SOCKRECV],
         "level": "proof",
         "technique": "Verus contract on the buffer arithmetic of the extracted Socket::recv (loop closed by an inductive invariant) over a ghost queue of pending messages; concrete witnesses replayed on the real async function",
-        "level_text": "READ-SIDE SENTENCE ONLY ('a read that asks for at most n bytes never returns more than n, and successive reads never lose, duplicate or reorder bytes'): Socket::recv is verified, for every request size, every stored remainder and every queue of pending messages (unbounded number and sizes, arbitrary chunk layouts), to return at most `bytes` bytes and to satisfy  returned ++ pending_after == pending_before, where pending = stored remainder ++ concatenation of the queued messages in delivery order. By induction over calls the concatenation of successive reads is a prefix of what the socket was handed, in order, with nothing lost or duplicated; Socket::recv_msg is verified against the same ghost stream (it takes exactly the stored remainder, else the head message). The first sentence of C02 (what the peer's socket is handed equals what was written, across TCP/UDP/IPv4/ARP/link and tokio schedules) is NOT decided by this check.",
-        "level_note": "Trusted: Verus/Z3; Message imported by contract (verified in unit message; Message::iter() 'yields exactly the view' is that unit's assumption). The extraction keeps the function body but applies declared rewrites that remove everything asynchronous: `async`, the session/listening check, yield_now, the shutdown subscription; `select!{shutdown, recv}` and `try_recv()` are routed to assumed-contract queue functions (a delivered message is the head of the ghost queue), Vec::extend(iter) to an assumed-contract append; struct Socket is reduced to the three fields recv uses. Hence concurrency (a message arriving or shutdown firing during the call) is modelled only as the nondeterministic outcome of those two functions. Termination of the receive loop is not verified. accept's replay of stored messages, Socket::send, SocketSession, TcpSession ordering and datagram isolation are not under contract.",
+        "level_text": "READ-SIDE SENTENCE ONLY ('a read that asks for at most n bytes never returns more than n, and successive reads never lose, duplicate or reorder bytes'): Socket::recv is verified, for every request size, every stored remainder and every queue of pending messages (unbounded number and sizes, arbitrary chunk layouts), to return at most `bytes` bytes and to satisfy  returned ++ pending_after == pending_before, where pending = stored remainder ++ concatenation of the queued messages in delivery order. By induction over calls the concatenation of successive reads is a prefix of what the socket was handed, in order, with nothing lost or duplicated; Socket::recv_msg is verified against the same ghost stream (it takes exactly the stored remainder, else the head message). Hand-over side: SocketSession::receive appends an accepted message at the end of what the socket will be handed (the channel when the socket exists, else the parked queue), and SocketSession::receive_stored_messages - the replay done by accept() - moves the parked messages into the channel in arrival order, each once. The first sentence of C02 (what the peer's socket is handed equals what was written, across TCP/UDP/IPv4/ARP/link and tokio schedules) is NOT decided by this check.",
+        "level_note": "Trusted: Verus/Z3; Message imported by contract (verified in unit message; Message::iter() 'yields exactly the view' is that unit's assumption). The extraction keeps the function body but applies declared rewrites that remove everything asynchronous: `async`, the session/listening check, yield_now, the shutdown subscription; `select!{shutdown, recv}` and `try_recv()` are routed to assumed-contract queue functions (a delivered message is the head of the ghost queue), Vec::extend(iter) to an assumed-contract append; struct Socket is reduced to the three fields recv uses. Hence concurrency (a message arriving or shutdown firing during the call) is modelled only as the nondeterministic outcome of those two functions. Termination of the receive loop is not verified. SocketSession's RwLocks are removed by declared rewrites (&self / Arc<Self> -> &mut self, lock guards -> plain borrows; tokio Sender -> assumed-contract VxSender log), so lock order and concurrent callers (a message arriving between `upstream = Some` and the replay) are not modelled; the failure path of the replay (channel refuses a message: the code drops it and accept() unwraps) carries no clause. Socket::accept itself, Socket::send (tokio::spawn per write), TcpSession ordering and datagram isolation are not under contract.",
         "assumptions": ["tokio mpsc delivers queued messages in FIFO order (assumed contract of vx_recv_blocking / vx_try_recv)", "Vec::extend appends exactly what the iterator yields", "cross-stack delivery (first sentence of C02) undecided"],
         "explanation": "bounded reads over the socket's pending byte stream",
     },
@@ -93,11 +93,11 @@ PROPS = {
     },
     "C18": {
         "units": ["checksum"],
-        "kani": [K_CHECKSUM, K_IPV4HDR, K_TCPHDR],
+        "kani": [K_CHECKSUM, K_IPV4HDR, K_TCPHDR, K_UDPHDR],
         "level": "proof",
         "technique": "Verus contracts on the extracted compute_checksum variants of Checksum (unbounded payload loop) + RFC 1071 algebra lemmas; Kani complete harnesses on the real crate built with --features compute_checksum",
         "level_text": "The accumulator functions (add_u16/add_u8/add_u32/accumulate_remainder/as_u16, compute_checksum variants) are verified against one's-complement addition with end-around carry for every payload length (loop invariant over an arbitrary byte iterator); lemmas: commutative monoid, the emitted field always verifies, a changed sum is always rejected. On the compiled crate with the feature on, CBMC proves for all field values that every emitted IPv4 header verifies under RFC 1071 against an independent 32-bit reference, that conforming headers are accepted and non-verifying ones rejected.",
-        "level_note": "Trusted: Verus/Z3, Kani/CBMC; assumed spec u16::overflowing_add (validated by Kani); vstd's prophetic iterator spec for Iterator::next; termination of the payload loop not verified. UDP/TCP emit/verify composition over the pseudo header is carried by the accumulator contracts + monoid lemmas, not by a whole-codec proof; a Kani twin of the payload loop is bounded (<= 5 bytes) and labelled so.",
+        "level_note": "Trusted: Verus/Z3, Kani/CBMC; assumed spec u16::overflowing_add (validated by Kani); vstd's prophetic iterator spec for Iterator::next; termination of the payload loop not verified. TCP (header-only segments, all fields) and UDP (payload of 0..=3 octets, BOUNDED, all contents) emit/verify over the pseudo header are Kani harnesses against a 32-bit RFC 1071 reference; for longer payloads the composition is carried by the accumulator contracts + monoid lemmas, not by a whole-codec proof; a Kani twin of the payload loop is bounded (<= 5 bytes) and labelled so.",
         "assumptions": ["compute_checksum build configuration", "payload iterators are finite"],
         "explanation": "RFC 1071 checksum algebra and IPv4 header emit/verify",
     },
@@ -107,7 +107,7 @@ PROPS = {
         "level": "proof",
         "technique": "Kani full-domain harnesses on the real fixed-size decoders (panic-freedom = every unwrap/index/arith check CBMC generates); Verus on the extracted DHCP decoder and BytesExt readers over an arbitrary byte iterator",
         "level_text": "Decoder clause: for every byte string (all lengths 0..=N+4 of symbolic bytes, symbolic packet_len) the IPv4/UDP/TCP/ARP decoders return a value or an error - CBMC proves every panic site (unwrap, index, arithmetic overflow) unreachable; truncations are always rejected; accepted inputs re-encode without panic. DHCP: DhcpMessage::from_bytes and MessageType::try_from are verified by Verus for an arbitrary (unbounded) byte iterator: every unwrap / unreachable! / `?` is a discharged obligation, a truncated fixed part is rejected, the fixed fields sit at their offsets.",
-        "level_note": "Trusted: Kani/CBMC, Verus/Z3; vstd's prophetic iterator specification; String::from_utf8 assumed total; BytesExt::next_ipv4addr by assumed contract. DNS: DnsMessage::from_bytes and DnsQuestion::query_name verified likewise (panic-freedom, header fields at their offsets, |rdata| == rdlength); DNS/DHCP encoders and their round trips are NOT under contract. NOT decided: the NDL text parser (nom/&str: outside Verus, CBMC does not scale), and 'a frame that fails to decode is dropped at that layer' (demux glue over DashMap/Arc<dyn Protocol>/tokio).",
+        "level_note": "Trusted: Kani/CBMC, Verus/Z3; vstd's prophetic iterator specification; String::from_utf8 assumed total; BytesExt::next_ipv4addr by assumed contract. DNS: DnsMessage::from_bytes and DnsQuestion::query_name verified likewise. NOT decided: the NDL text parser (nom/&str: outside Verus, CBMC does not scale), and 'a frame that fails to decode is dropped at that layer' (demux glue over DashMap/Arc<dyn Protocol>/tokio).",
         "assumptions": ["decoders read at most the fixed header from the iterator in the default feature set (accumulate_remainder is a no-op)"],
         "explanation": "decoder panic-freedom",
     },
@@ -116,8 +116,8 @@ PROPS = {
         "kani": [K_IPV4HDR, K_UDPHDR, K_TCPHDR, K_ARP, K_DHCP, K_DNS],
         "level": "proof",
         "technique": "Kani full-domain harnesses (loop-free => complete) on the real codec functions: decode/re-encode, encode/decode, RFC wire layout",
-        "level_text": "IPv4, UDP, TCP and ARP codecs: for every fixed-size header byte string the decoder accepts, re-encoding reproduces the bytes; for every value the public builders can produce, decoding the encoding returns it; the encoder output equals the RFC 791/768/9293/826 layout written out byte by byte in the harness. CBMC explores all inputs (no bound: the code is loop-free in the default feature set; the 2-iteration next_n loop is fully unwound with unwinding assertions).",
-        "level_note": "Trusted: Kani/CBMC; the harness-side RFC layouts in units/*/kani.rs are the specification (an 'independent implementation' such as etherparse is not linked). Default feature set (checksum field transmitted as zero); the compute_checksum configuration is C18. DNS/DHCP: see evidence (variable-length codecs).",
+        "level_text": "IPv4, UDP, TCP and ARP codecs: for every fixed-size header byte string the decoder accepts, re-encoding reproduces the bytes; for every value the public builders can produce, decoding the encoding returns it; the encoder output equals the RFC 791/768/9293/826 layout written out byte by byte in the harness. DHCP and DNS (variable length, Verus): encoders emit exactly the wire-format specification (dhcp_enc / dns_enc), an accepted input's decoded value re-encodes to the consumed bytes, and decoding anything that starts with the encoding of a representable value x returns x, for unbounded names / RDATA. CBMC explores all inputs (no bound: the code is loop-free in the default feature set; the 2-iteration next_n loop is fully unwound with unwinding assertions).",
+        "level_note": "Trusted: Kani/CBMC; the harness-side RFC layouts in units/*/kani.rs are the specification (an 'independent implementation' such as etherparse is not linked). Default feature set (checksum field transmitted as zero); the compute_checksum configuration is C18. DNS/DHCP (Verus, unbounded): String modelled by uninterpreted sbytes/utf8_ok with two assumed std axioms; ghost parameter x and the rebinding of the mut iterator parameter are declared rewrites; BytesExt::next_ipv4addr assumed (validated by a complete Kani harness); Vec::extend(str::as_bytes()) routed to an assumed-contract wrapper.",
         "assumptions": ["'representable header value' = what the public builders/constructors can produce with IHL = data offset = 5"],
         "explanation": "codec round trips and wire formats",
     },
